@@ -66,3 +66,27 @@ Theorem C18_client_no_response : forall haskey keyf s dest direct addr objcnt si
              q_state s' = Q_IDLE /\ q_subs s' = [] /\ q_dq s' = [] /\ q_xq s' = [].
 Proof. exact read_no_response. Qed.
 Print Assumptions C18_client_no_response.
+
+(* ------------------------------------------------------------------------------------------------------------------
+   End to end on the composed model (theories/Dm14Net.v, see props/C17.v): a requester that answers the seed with the WRONG
+   key — for every content of the data — gets the device error 0x1003 / EDCP 7 raised from read()/write(); the serving
+   application is neither asked nor notified, no DM16 leaves the server, and BOTH sides are idle again (T18.1 + T18.3) ... *)
+From J1939 Require Import Dm14Srv Dm14Cli Dm14Net.
+From J1939P Require Import Dm14NetProofs.
+
+Theorem C18_read_with_wrong_key_end_to_end : forall u, In u key_setups -> forall data size signed raw, (1 <= length data <= 7)%nat ->
+  refused u (txn_read (u_cfg u) wrong_key (init_srv (u_seeds u) []) init_cli (u_ca u) (u_sa u) (u_direct u) (u_addr u) (zlen data) size signed raw data).
+Proof. exact read_wrong_key_refused. Qed.
+Print Assumptions C18_read_with_wrong_key_end_to_end.
+Theorem C18_write_with_wrong_key_end_to_end : forall u, In u key_setups -> forall values, (1 <= length values <= 7)%nat ->
+  refused u (txn_write (u_cfg u) wrong_key (init_srv (u_seeds u) []) init_cli (u_ca u) (u_sa u) (u_direct u) (u_addr u) values 1).
+Proof. exact write_wrong_key_refused. Qed.
+Print Assumptions C18_write_with_wrong_key_end_to_end.
+(* ... and the next well-formed operation on the same objects is served (recovery) *)
+Theorem C18_read_after_wrong_key_end_to_end : forall b1 b2 c1 size signed raw,
+  let t1 := txn_read cfg_key wrong_key (init_srv [4660; 77] []) init_cli 249 212 1 2449473539 2 size signed raw [b1; b2] in
+  let t2 := txn_read cfg_key xor_key (t_srv t1) (t_cli t1) 249 212 1 2449473539 1 size signed raw [c1] in
+  t_ret t1 = CRRaise (XDevice 212 4099 7) /\
+  t_ret t2 = CRValues (if raw then [c1] else bytes_to_values (Z.to_nat size) signed [c1]) /\ idle_cli (t_cli t2) /\ idle_srv (t_srv t2).
+Proof. exact read_after_wrong_key. Qed.
+Print Assumptions C18_read_after_wrong_key_end_to_end.
